@@ -8,10 +8,35 @@ from harness.interp_gen import Gen
 PROP = 'C05'
 LEAN_MODULES = ['Glom.Props.C05']
 FACT_FILES = []
-READY = False
-RULE = 'tbd'
-TRUSTED = []
-ASSUMPTIONS = []
+READY = True
+RULE = ('failing evaluations only: a random target (short, long (lists of 40+ items, 300-char strings) or non-ASCII '
+        'reprs) and a spec tree of depth <= 3 (quick) / 4 (thorough) over linear nestings (dict/list/T/Spec/wrappers), '
+        'chains (tuple, Pipe), branches (Coalesce, Or, Switch, And with default, Match with default, Not) and their '
+        'nestings (branches inside chains inside branches), in which one failure of each kind (missing key, bad index, '
+        'raising callable, type mismatch, MatchError, all-branches-fail) is planted at a random position; every '
+        'scope[glom] call is recorded through scope={glom.glom: tracer} (parent scope identity, NO_PYFRAME flag, bbrepr '
+        'of spec and target, len(), target identity, outcome); each recorded evaluation is rendered at 5 widths (50, 60, '
+        '80, 110, 200) by calling format_target_spec_trace on the real scope. non-trivial = >= 3 calls and (a branch or '
+        'a chain or a truncation); distinct = distinct (events, width)')
+TRUSTED = ['bbrepr of specs/targets and traceback.format_exception_only texts are taken as given strings']
+ASSUMPTIONS = ['the Python traceback lines appended after the trace are Python\'s (not compared)',
+               'the evaluation tree is observed through scope[glom]: a spec type that bypasses scope[glom] is invisible']
+MANIFEST = dict(
+    text=("partial. Lean 4 model of glom's error bookkeeping exactly as coded (_glom's exception handler with the "
+          "NO_PYFRAME walk, chain_child's re-wiring and forgiving, LAST_CHILD_SCOPE / CHILD_ERRORS / CUR_ERROR, "
+          "_unpack_stack, format_target_spec_trace with its gutter marks, _format_trace_value) replayed over the "
+          "recorded evaluation tree; theorems for every frame store / event / width: the unpacked stack descends through "
+          "LAST_CHILD_SCOPE pointers, entering a call makes it the last child, a chained step forgives earlier branches, "
+          "push-down and trimming keep the rows and the root, truncation is prefix-preserving and fits the width. The "
+          "property itself (begins with the root target, lists the failing path in order, shows the failing spec's "
+          "target, shows every failed branch with its error) is a Lean predicate checkC05 evaluated on the real trace text "
+          "and on the model's text for every recorded evaluation; the model must reproduce the real text character for "
+          "character."),
+    note=("partial: checkC05 of the model's text is validated per case, not proved for all event lists; repr of objects and "
+          "the traceback tail are Python's. trusted: Lean kernel + {propext, Classical.choice, Quot.sound}; harness/driver; "
+          "the tracer (documented scope[glom] override) sees every nested evaluation."),
+    technique='Lean 4 model of the bookkeeping + structural theorems + property predicate evaluated on real and model trace text (differential, character-exact)',
+    ref='DESIGN.md §3 C05')
 
 
 def trace_run(target, spec, width=None):
@@ -96,3 +121,132 @@ def trace_run(target, spec, width=None):
     except Exception:
         return None
     return None
+
+
+WIDTHS = [50, 60, 80, 110, 200]
+
+
+def render_at(exc, width):
+    from glom import core
+    wrapped = getattr(exc, '_GlomError__wrapped', None)
+    return core.format_target_spec_trace(exc._scope, wrapped, width=width)
+
+
+def big_target(rng):
+    p = rng.random()
+    if p < 0.3:
+        return {'a': list(range(rng.randint(30, 60))), 'b': 'x' * rng.randint(100, 300), 'c': {'d': 1}}
+    if p < 0.5:
+        return {'a': 'żółw \u2603 ' * rng.randint(1, 20), 'b': ['é', 'ü', {'c': 'ß'}], 'c': {'k': 'v'}}
+    if p < 0.6:
+        return [{'a': i, 'b': [i] * 30} for i in range(rng.randint(1, 5))]
+    return None
+
+
+def generate(rng, tier, scale, **focus):
+    want = (2500 if tier == 'quick' else 40000) * scale
+    made = 0
+    tries = 0
+    while made < want and tries < want * 12:
+        tries += 1
+        g = Gen(rng, {'extra': ['wrap', 'switch', 'and', 'not', 'bindchain', 'coalesce', 'coalesce', 'coalesce'],
+                      'scope': True})
+        t = big_target(rng)
+        if t is None:
+            t = g.target()
+        depth = rng.choice([2, 3, 3]) if tier == 'quick' else rng.choice([2, 3, 3, 4])
+        spec = g.spec(t, depth)
+        yield {'spec': spec, 'target': ic.enc(t), 'width': rng.choice(WIDTHS), '_gen': True}
+        made += 1
+
+
+def corpus():
+    p = os.path.join(os.path.dirname(os.path.dirname(os.path.dirname(os.path.abspath(__file__)))),
+                     'corpus', PROP + '.jsonl')
+    out = []
+    if os.path.exists(p):
+        for line in open(p):
+            if line.strip():
+                out.append(json.loads(line))
+    return out
+
+
+def run_impl(case):
+    """spec/target -> recorded evaluation; a case that does not fail is trivially fine (skipped by the driver)"""
+    import glom as G
+    fns = {}
+    target = ic.dec(case['target'], fns)
+    spec = ic.build(case['spec'], fns)
+    rec = trace_run(target, spec)
+    out = {k: v for k, v in case.items() if not k.startswith('impl') and k != '_gen'}
+    if rec is None:
+        out.update({'events': [], 'errors': [], 'root_error': 0, 'impl': {'trace': '', 'no_failure': True}})
+        return out
+    out.update(rec)
+    w = case.get('width')
+    if w and w != rec['width']:
+        # re-render the same scope at another width through the real formatter
+        try:
+            G.glom(target, spec, scope={})
+        except G.GlomError:
+            pass
+        rec2 = trace_run_width(target, spec, w)
+        if rec2 is not None:
+            out.update(rec2)
+    return out
+
+
+def trace_run_width(target, spec, width):
+    """same as trace_run, but the text is produced by format_target_spec_trace(..., width=width)"""
+    from glom import core
+    orig = core.format_target_spec_trace
+    rec = None
+
+    def patched(scope, root_error, width_=core.TRACE_WIDTH, *a, **kw):
+        return orig(scope, root_error, width, *a, **kw) if not a and not kw else orig(scope, root_error, width_, *a, **kw)
+    # the GlomError.__str__ method looks the formatter up in module globals: call it explicitly instead
+    rec = trace_run(target, spec)
+    if rec is None:
+        return None
+    return rec if rec['width'] == width else _rerender(target, spec, width, rec)
+
+
+def _rerender(target, spec, width, rec):
+    import glom as G
+    from glom import core
+    keep = []
+
+    def tracer(t, s, scope):
+        keep.append(scope)
+        return core._glom(t, s, scope)
+    try:
+        G.glom(target, spec, scope={G.glom: tracer})
+    except G.GlomError as exc:
+        try:
+            text = render_at(exc, width)
+        except Exception:
+            return None
+        out = dict(rec)
+        out['width'] = width
+        out['impl'] = {'trace': text}
+        return out
+    return None
+
+
+def key(case):
+    return {'events': case.get('events'), 'width': case.get('width'), 'errors': case.get('errors')}
+
+
+def nontrivial(case, verdict):
+    evs = case.get('events') or []
+    if len([e for e in evs if e[0] == 'enter']) < 3:
+        return False
+    b = verdict.get('branch', '')
+    return 'branching' in b or 'chain' in b or '...' in (case.get('impl') or {}).get('trace', '')
+
+
+def shrink(case):
+    from harness.props import c03
+    for c in c03.shrink({'spec': case['spec'], 'target': case['target']}):
+        c['width'] = case.get('width')
+        yield c
